@@ -1,3 +1,4 @@
+import numpy as np
 from scipy import optimize as sopt
 
 from ..config import LocalOptimizationConfig
@@ -54,6 +55,7 @@ class LocalDeme(AbstractDeme):
         return self._n_evals
 
     def _history_callback(self, intermediate_result) -> None:
-        ind = Individual(intermediate_result.x, problem=self._problem)
+        # scipy may pass its internal work array, which it keeps updating in place.
+        ind = Individual(np.copy(intermediate_result.x), problem=self._problem)
         ind.fitness = self._sign * intermediate_result.fun
         self._run_history.append(ind)
